@@ -2369,8 +2369,10 @@ func (a *Agent) TaskDispatch(RequestID uint32, CommandID uint32, Parser *parser.
 				WorkingHours int32
 			)
 
-			a.Encryption.AESKey = Parser.ParseAtLeastBytes(32)
-			a.Encryption.AESIv = Parser.ParseAtLeastBytes(16)
+			var (
+				AESKey = Parser.ParseAtLeastBytes(32)
+				AESIv  = Parser.ParseAtLeastBytes(16)
+			)
 
 			if Parser.CanIRead([]parser.ReadType{parser.ReadInt32, parser.ReadBytes, parser.ReadBytes, parser.ReadBytes, parser.ReadBytes, parser.ReadBytes, parser.ReadInt32, parser.ReadInt32, parser.ReadInt32, parser.ReadInt32, parser.ReadInt32, parser.ReadInt32, parser.ReadInt32, parser.ReadInt32, parser.ReadInt32, parser.ReadInt32, parser.ReadInt32, parser.ReadInt32, parser.ReadInt64, parser.ReadInt32}) {
 				DemonID = Parser.ParseInt32()
@@ -2392,8 +2394,16 @@ func (a *Agent) TaskDispatch(RequestID uint32, CommandID uint32, Parser *parser.
 				KillDate = Parser.ParseInt64()
 				WorkingHours = int32(Parser.ParseInt32())
 
+				// a checkin describes the agent that sent it: never let it rename the session
+				if DemonID != AgentID {
+					logger.Debug(fmt.Sprintf("Agent: %x, Command: COMMAND_CHECKIN, agent id mismatch: %x", AgentID, DemonID))
+					break
+				}
+
 				a.Active = true
 
+				a.Encryption.AESKey = AESKey
+				a.Encryption.AESIv = AESIv
 				a.NameID = fmt.Sprintf("%08x", DemonID)
 				a.Info.FirstCallIn = a.Info.FirstCallIn
 				a.Info.LastCallIn = a.Info.LastCallIn
